@@ -254,7 +254,7 @@ func run(c *Ctx) {
 	}
 	nCorpus := len(cases)
 	if c.Replay == "" {
-		n := c.Budget(700, 14000)
+		n := c.Budget(700, 9000)
 		for i := 0; i < n; i++ {
 			cases = append(cases, genCase(g, c))
 		}
